@@ -62,6 +62,29 @@ func genFaults(c *Ctx, kinds []string) {
 			faultSweep(c, p, t, kinds, true)
 		}
 	}
+	// asynchronous stages (Buffered, concurrent map, concurrent consume): every fault position as well; the
+	// observation is taken after the library's goroutines have quiesced. Order across goroutines is schedule
+	// dependent, so these cases are decided by the spec predicate only (no comparison with the sequential model).
+	asyncPipes := []string{
+		"buffered 2 lc 1 src 0 1,2,3",
+		"buffered 3 map add:1 lc 1 src 0 1,2,3,4,5,6",
+		"lc 2 buffered 4 lc 1 src 0 1,2",
+		"cmap 2 add:1 lc 1 src 0 1,2,3,4",
+		"cmap 1 mul:2 src 0 1,2,3",
+		"cmap 3 add:1 concat 2 lc 2 src 0 1,2 src 1 3",
+		"buffered 2 cmap 2 add:1 lc 1 src 0 1,2,3",
+		"filter mod:2:0 buffered 3 src 0 1,2,3,4,5,6,7,8",
+		"zip 2 buffered 2 src 0 1,2,3 buffered 3 lc 2 src 1 4,5,6",
+	}
+	asyncTerms := []string{"collect all", "user all", "collect take:1", "cuser:2 all", "collect take:3"}
+	rounds := c.Pick(1, 4)
+	for r := 0; r < rounds; r++ {
+		for _, p := range asyncPipes {
+			for _, t := range asyncTerms {
+				faultSweep(c, "ASYNC "+p, t, kinds, true)
+			}
+		}
+	}
 	n := c.Pick(250, 4000)
 	for i := 0; i < n; i++ {
 		g := &pgen{rng: c.Rng, srcMax: 5}
